@@ -20,9 +20,9 @@ CLAIMS = {
    note="Axioms: propext, Classical.choice, Quot.sound. Little-endian byte interleave only; the OR of shifted channels is modelled under the (proved) guard that each channel is in 0..255. wide::i32x4 lane-wise wrapping semantics trusted.",
    design="DESIGN.md §4 C07", technique="Lean 4 proof (omega over regenerated literals) + exhaustive correspondence"),
  "C08": dict(
-   text="Lean 4 model of yuv420_to_rgba (row loop, whole 4-pixel groups, remainder path with its x%4, (x%4)/2, i%16 indexing), tied to the code by correspondence on every width x height of a dense range and checked against the pointwise statement pixel(x,y) = BT.601(luma(x,y), chroma(x/2,y/2)); theorem: an empty picture of any width yields an empty output without panic.",
-   note="PARTIAL: the pointwise layout statement for every width/height (pixel_at, length, no_panic) is so far carried by the correspondence runs and the executable pointwise spec, not by a theorem; proved: empty_ok. Axioms: propext, Quot.sound at most.",
-   design="DESIGN.md §4 C08", technique="Lean 4 model + theorem for the empty case; model/code correspondence over all sizes"),
+   text="Lean 4 theorems for every width >= 1, height >= 1, planes of the documented sizes and arbitrary byte contents: yuv420_to_rgba's model returns (never panics: every assertion and slice bound holds) exactly 4*w*h bytes, and bytes 4(y*w+x)..+3 are R,G,B,A of the BT.601 pixel (C07) of luma (x,y) with chroma (floor(x/2), floor(y/2)), whether the pixel lies in a whole 4-pixel group or in the per-row remainder path with its x%4, (x%4)/2, i%16 indexing; all plane indices are proved in range; an empty picture of any width yields an empty output. Model tied to the code by correspondence on every width x height of a dense range (debug assertions on) and checked against the pointwise statement.",
+   note="Axioms: propext, Classical.choice, Quot.sound. The model writes the output pointwise (each byte is written exactly once by the Rust code: whole groups by the chunk loop, the last w%4 pixels of a row by the remainder path); that this matches the in-place writes is what the correspondence establishes. Little-endian byte interleave only.",
+   design="DESIGN.md §4 C08", technique="Lean 4 proof (index arithmetic by omega, case analysis on w mod 4) + correspondence over all sizes"),
  "C11": dict(
    text="Lean 4 theorems: the model's dequantisation equals sign(L)*(Q*(2|L|+1) - [Q even]) saturated to -2048..2047 for every quantizer and level; INTRADC codes 0/128 rejected, 255 -> 1024, others -> 8*code; the quantizer update is clamp(1,31,Q+DQUANT) with no i8 overflow; the regenerated de-zig-zag table equals the classical scan; two's-complement round trip of the 7/8/11-bit escape levels. Model tied to the code by exhaustive correspondence through the inverse_rle hook (31 quantizers x 2046 levels x positions) and through 16x16 pictures for all 31 x 4 quantizer updates.",
    note="Axioms: propext, Classical.choice, Quot.sound. PARTIAL: that the k-th coded coefficient lands at zig-zag position k (run-length expansion and the lossless Zero/Dc/Horiz/Vert/Full shape classification) is covered by correspondence (multi-event blocks) and by the executable spec for one-coefficient blocks, not yet by a general theorem.",
